@@ -55,6 +55,34 @@ fn member_iteration(m: &Cfg, how: How) -> Result<(Vec<u8>, Vec<usize>), String> 
     }
 }
 
+/// The leaf configurations of a member list, nested compounds flattened (a compound has no header of its own).
+fn leaves<'a>(m: &'a Cfg, out: &mut Vec<&'a Cfg>) {
+    match m {
+        Cfg::Compound(inner) => inner.iter().for_each(|x| leaves(x, out)),
+        leaf => out.push(leaf),
+    }
+}
+
+/// "The member parsed on its own" through the *typed* parser of the member's own kind, rendered the way the
+/// compound iteration renders an item. None: no typed parser of the crate belongs to this member (third-party
+/// writers, unknown-builder packets that borrow a known type number).
+fn typed_alone(leaf: &Cfg, tile: &[u8]) -> Option<Result<String, drive::Panicked>> {
+    fn r<'a, T: Into<Packet<'a>>>(x: Result<T, RtcpParseError>) -> String {
+        format!("{:?}", x.map(|v| -> Packet<'a> { v.into() }))
+    }
+    Some(match leaf {
+        Cfg::Sr { .. } => call(|| r(SenderReport::parse(tile))),
+        Cfg::Rr { .. } => call(|| r(ReceiverReport::parse(tile))),
+        Cfg::Sdes { .. } => call(|| r(Sdes::parse(tile))),
+        Cfg::Bye { .. } => call(|| r(Bye::parse(tile))),
+        Cfg::App { .. } => call(|| r(App::parse(tile))),
+        Cfg::Fb { kind: FbKind::Transport, .. } => call(|| r(TransportFeedback::parse(tile))),
+        Cfg::Fb { kind: FbKind::Payload, .. } => call(|| r(PayloadFeedback::parse(tile))),
+        Cfg::Unknown { pt, .. } if !(200..=206).contains(pt) => call(|| r(Unknown::parse(tile))),
+        _ => return None,
+    })
+}
+
 pub fn check_c14(ctx: &mut Ctx, cfg: &Cfg, how: How) {
     let _case = crate::watchdog::case_cfg("c14", cfg, how);
     let Cfg::Compound(members) = cfg else { return };
@@ -266,6 +294,40 @@ pub fn check_c14(ctx: &mut Ctx, cfg: &Cfg, how: How) {
                                 format!("{} packets, each equal to the member parsed on its own; item {k}: {:?}", expect_items.len(), expect_items.get(k)),
                                 format!("{} packets; item {k}: {:?}", items.len(), items.get(k)),
                             );
+                        } else {
+                            // ... and "the member parsed on its own" also means: by the typed parser that belongs to
+                            // the member's builder. Where that parser accepts the member's own image, the compound
+                            // must hand out that very packet (a generic path that is stricter or laxer than the typed
+                            // parser for some member shape loses or alters a member of the compound).
+                            let mut lv = vec![];
+                            members.iter().for_each(|m| leaves(m, &mut lv));
+                            let mut off = 0usize;
+                            for (k, l) in member_lens.iter().enumerate() {
+                                let tile = &data[off..off + l];
+                                off += l;
+                                let (Some(item), Some(leaf)) = (items.get(k), lv.get(k)) else { break };
+                                match typed_alone(leaf, tile) {
+                                    Some(Ok(t)) if t.starts_with("Ok(") => {
+                                        if *item != t {
+                                            ctx.violate(
+                                                "member-as-parsed-by-its-own-parser",
+                                                "compound",
+                                                leaf.kind_name(),
+                                                case,
+                                                format!("item {k} is what the member's typed parser returns for the member's own image: {}", crate::json::trunc(&t, 300)),
+                                                format!("item {k}: {}", crate::json::trunc(item, 300)),
+                                            );
+                                            break;
+                                        }
+                                        ctx.class("c14:member-typed-equal");
+                                    }
+                                    Some(_) => ctx.class("c14:other-property:member-rejected-by-its-own-parser(C02-C05)"),
+                                    None => {}
+                                }
+                                if item.starts_with("Err") {
+                                    break;
+                                }
+                            }
                         }
                     }
                 }
